@@ -122,6 +122,10 @@ func clip(s string) string {
 
 // feed opens a connection, writes input, ends the connection in the given way
 // and checks the clean-up invariants. It returns the recorded backend calls.
+// lastOutput holds what the server wrote during the last feed (for "close" and
+// "reset" endings possibly nothing).
+var lastOutput []byte
+
 func feed(t fataler, input []byte, end string, what string) []stub.Call {
 	w := getWorld()
 	before := w.numCores()
@@ -143,6 +147,7 @@ func feed(t fataler, input []byte, end string, what string) []stub.Call {
 		_, dump := serverGoroutines()
 		t.Fatalf("%s: %s after input %q: the server did not close its end within 10s (spinning or stuck); goroutines:\n%s", what, end, clip(string(input)), clipDump(dump))
 	}
+	lastOutput, _ = raw.C.ReadAvailable(2*time.Millisecond, 2*time.Second)
 	raw.C.Close()
 	// goroutines of this connection must be gone
 	deadline := time.Now().Add(5 * time.Second)
@@ -377,6 +382,97 @@ func TestPropDisconnect(t *testing.T) {
 			ev.Class("disconnect:transcript-with-sasl-exchange")
 		}
 		ev.Sample(fmt.Sprintf("disconnect sweep over every offset of %q", clip(tr)))
+	})
+}
+
+// canaryPayload is literal data of exactly n octets that looks like commands.
+func canaryPayload(n int) string {
+	line := "zz1 DELETE canary\r\n"
+	s := strings.Repeat(line, n/len(line)+1)
+	return s[:n]
+}
+
+// TestPropOversize: literals the server must refuse *before* reading them: an
+// APPEND above the append limit in every connection state (also before
+// authentication and after UNAUTHENTICATE), and buffered string arguments
+// above 4096 octets. A refusal means: no continuation request for the literal,
+// and a tagged NO/BAD for the command (or BYE); nothing of that size reaches
+// the backend. Also: over-long lines where a line is expected (SASL response,
+// DONE), which must end the exchange cleanly.
+func TestPropOversize(t *testing.T) {
+	rapid.Check(t, func(t *rapid.T) {
+		literalPlus = rapid.Bool().Draw(t, "server-literal+")
+		prefix := rapid.SampledFrom([]string{"", "p1 LOGIN u p\r\n", "p1 LOGIN u p\r\np2 SELECT INBOX\r\n", "p1 LOGIN u p\r\np2 UNAUTHENTICATE\r\n", "p1 LOGIN wrong {3+}\r\nbad\r\n"}).Draw(t, "state")
+		kind := rapid.SampledFrom([]string{"append", "append", "buffered", "longline"}).Draw(t, "kind")
+		var input, what string
+		expectPlus := 0
+		plusSign := ""
+		if rapid.IntRange(0, 2).Draw(t, "nonsync") == 0 {
+			plusSign = "+" // non-synchronising: refused as well; a few payload octets follow
+		}
+		switch kind {
+		case "append":
+			size := rapid.SampledFrom([]string{"104857601", "104857601", "2147483648", "9223372036854775807"}).Draw(t, "size")
+			flags := rapid.SampledFrom([]string{"", "(\\Seen) ", "(\\Seen) \"01-Jan-2024 00:00:00 +0000\" "}).Draw(t, "flags")
+			input = prefix + "big APPEND INBOX " + flags + "{" + size + plusSign + "}\r\n"
+			if plusSign != "" {
+				input += canaryPayload(5000) // the first octets of the announced data
+			}
+			what = "APPEND of " + size + " octets (limit 104857600)"
+		case "buffered":
+			size := rapid.SampledFrom([]string{"4097", "5000", "70000", "2147483648"}).Draw(t, "size")
+			cmd := rapid.SampledFrom([]string{"LOGIN ", "SELECT ", "CREATE ", "LIST \"\" ", "LSUB \"\" ", "SEARCH SUBJECT ", "STATUS ", "RENAME a ", "SEARCH HEADER X-A ", "STORE 1 +FLAGS ", "COPY 1 "}).Draw(t, "cmd")
+			input = prefix + "big " + cmd + "{" + size + plusSign + "}\r\n"
+			if plusSign != "" {
+				n, _ := strconv.Atoi(size)
+				if n > 70000 {
+					n = 5000 // only the first octets of the announced data
+				}
+				input += canaryPayload(n) + "\r\nafter NOOP\r\n"
+			}
+			what = "buffered " + strings.TrimSpace(cmd) + " argument of " + size + " octets (limit 4096)"
+		default:
+			n := rapid.SampledFrom([]int{4000, 4094, 4095, 4096, 4097, 4200, 8192, 70000}).Draw(t, "linelen")
+			if rapid.Bool().Draw(t, "sasl") {
+				input = prefix + "big AUTHENTICATE PLAIN\r\n" + strings.Repeat("A", n) + "\r\nafter NOOP\r\n"
+				what = fmt.Sprintf("SASL response line of %d octets", n)
+			} else {
+				input = "p1 LOGIN u p\r\nbig IDLE\r\n" + strings.Repeat("D", n) + "\r\nafter NOOP\r\n"
+				what = fmt.Sprintf("line of %d octets instead of DONE", n)
+			}
+			expectPlus = 1
+		}
+		end := rapid.SampledFrom([]string{"halfclose", "halfclose", "close"}).Draw(t, "end")
+		calls := feed(t, []byte(input), end, "oversize")
+		for _, c := range calls {
+			for k, v := range c.Args {
+				if sv, ok := v.(string); ok && len(sv) > 4096 {
+					t.Fatalf("%s: a %d-octet string reached the backend (%s.%s)", what, len(sv), c.Method, k)
+				}
+			}
+			if c.Method == "Delete" {
+				t.Fatalf("%s: the payload of the refused literal was executed as a command (Delete reached the backend)", what)
+			}
+		}
+		if end == "halfclose" {
+			out := string(lastOutput)
+			plus := 0
+			for _, l := range strings.Split(out, "\r\n") {
+				if strings.HasPrefix(l, "+") {
+					plus++
+				}
+			}
+			if plus > expectPlus {
+				t.Fatalf("%s in state %q (LITERAL+=%v): the server sent %d continuation request(s), i.e. it agreed to read the data instead of refusing it first; output %q", what, prefix, literalPlus, plus, clip(out))
+			}
+			if kind != "longline" && !strings.Contains(out, "big NO") && !strings.Contains(out, "big BAD") && !strings.Contains(out, "* BYE") {
+				t.Fatalf("%s in state %q: neither a tagged NO/BAD nor BYE in the output %q", what, prefix, clip(out))
+			}
+		}
+		ev.Eval()
+		ev.NonTrivial(kind + "|" + prefix + "|" + what)
+		ev.Class("oversize:" + kind)
+		ev.Sample(fmt.Sprintf("oversize: %s after %q, LITERAL+=%v, end=%s", what, prefix, literalPlus, end))
 	})
 }
 
